@@ -262,7 +262,7 @@ def _flat(v):
     return v
 
 
-def try_assign(pt, acc, rng, a, b):
+def try_assign(pt, acc, rng, a, b, how=None):
     """Assign a value of type a to an instance of type b through the assignment entry points (set(ABI value), set(ComputedValue),
     ComputedValue.store_into) and *execute* the result: when PyTeal accepts the assignment, the bytes that end up in the target must
     decode under b to the value that was encoded under a.  (No knowledge of which paths convert and which copy raw bytes is used.)"""
@@ -279,18 +279,30 @@ def try_assign(pt, acc, rng, a, b):
     except Exception:
         acc.counters["assign_unbuildable"] += 1
         return
-    how = rng.choice(["set", "computed_set", "store_into"])
+    how = how or rng.choice(["set", "computed_set", "store_into", "array_element", "tuple_element"])
     if how == "set" and isinstance(b, abi.TupleTypeSpec):
         how = "store_into"  # Tuple.set(*values) takes the elements, not a tuple
     v = abigen.rand_val(rng, sa)
-    enc = sa.encode(v)
+    container = None
+    if how == "array_element":
+        container, cval = abi.DynamicArrayTypeSpec(a), [abigen.rand_val(rng, sa), v]
+    elif how == "tuple_element":
+        container, cval = abi.TupleTypeSpec(abi.Uint8TypeSpec(), a), [7, v]
+    try:
+        enc = sa.encode(v) if container is None else abigen.sdk(str(container)).encode(cval)
+    except Exception:
+        acc.counters["assign_unbuildable"] += 1
+        return
     if len(enc) > 1500:
         return
     case = {"a": str(a), "b": str(b), "how": how, "a_class": type(a).__name__, "b_class": type(b).__name__}
     try:
-        src, dst = a.new_instance(), b.new_instance()
+        src, dst = (a if container is None else container).new_instance(), b.new_instance()
         if how == "set":
             assign = dst.set(src)
+        elif container is not None:
+            # an element of an array / a member of a tuple stored into an instance of type b
+            assign = src[1].store_into(dst)
         else:
             def mk(*, output):
                 return output.decode(pt.Txn.application_args[0])
@@ -417,6 +429,14 @@ def run_shard(shard):
     for t in U:
         classes.setdefault(re.sub(r"uint\d+|bool", "u", norm(pt, t)), []).append(t)
     near = [v for v in classes.values() if len(v) >= 2]
+    # every ordered pair of every near-miss class through every assignment entry point (split across shards)
+    pairs = [(x, y) for cls in sorted(near, key=lambda c: str(c[0])) for x in cls for y in cls if x is not y]
+    for i, (x, y) in enumerate(pairs):
+        if i % shard["nshards"] != shard["shard"]:
+            continue
+        for how in ("set", "computed_set", "store_into", "array_element", "tuple_element"):
+            try_assign(pt, acc, rng, x, y, how=how)
+        acc.counters["near_miss_pairs_enumerated"] += 1
     for _ in range(shard["calls"]):
         r0 = rng.random()
         if r0 < .35:
